@@ -18,7 +18,7 @@ MANIFEST_INFO = {
     "engine": "B",
     "design_ref": "DESIGN.md section 5, C18",
     "technique": "explicit-state BFS over add_rule/startTestRun/stopTestRun/status histories on a real StreamResultRouter with recording sinks, routing-precedence reference model per step; exhaustive enumeration of StreamToQueue/consuming-router nestings",
-    "level_text": "All histories of <= 6 (quick) / 8 (thorough) operations over 12 rule kinds (<=3 unambiguous rules), run start/stop and 21 status events (7 route codes of 0..4 segments x 3 test ids) are executed on a fresh real router per fallback configuration; after every operation every sink's log is compared with the model (exactly one destination, fields unchanged, exactly one leading segment consumed, start/stop delivered once to registered sinks only). The push/pop inverse is enumerated for every nesting of 1..3 StreamToQueue codes over 4 original route codes.",
+    "level_text": "All histories of <= 6 (quick) / 8 (thorough) operations over 12 rule kinds with a new sink each and 6 that add a further rule for the fallback or the most recent sink (<=3 unambiguous rules), run start/stop and 21 status events (7 route codes of 0..4 segments x 3 test ids) are executed on a fresh real router per fallback configuration; after every operation every sink's log is compared with the model (exactly one destination, fields unchanged, exactly one leading segment consumed, start/stop delivered once to registered sinks only). The push/pop inverse is enumerated for every nesting of 1..3 StreamToQueue codes over 4 original route codes.",
     "level_note": "Events are passed by keyword (as every caller in testtools does); ambiguous rule sets (two rules for one prefix or id) are documented as undefined and not generated.",
 }
 
@@ -30,6 +30,9 @@ RULE_OPS = tuple(
     [("rule_prefix", p, c, d) for p in ("0", "1") for c in (False, True) for d in (False, True)]
     + [("rule_id", t, d) for t in ("a", None) for d in (False, True)]
 )
+# a further rule (default do_start_stop_run) for a sink that is known already: the fallback ("F") or
+# the sink of the most recent rule ("last")
+SAME_OPS = tuple([("rule_prefix_same", p, t) for p in ("0", "1") for t in ("F", "last")] + [("rule_id_same", "a", t) for t in ("F", "last")])
 FALLBACKS = ("none", "fallback+startstop", "fallback-nostartstop")
 
 
@@ -58,9 +61,10 @@ class Model:
             self.registered.append("F")
         self.in_run = False
         self.nrules = 0
+        self.nsinks = 0
 
     def key(self):
-        return (tuple(sorted(self.prefixes.items())), tuple(sorted(self.ids.items(), key=repr)), tuple(self.registered), self.in_run)
+        return (tuple(sorted(self.prefixes.items())), tuple(sorted(self.ids.items(), key=repr)), tuple(self.registered), self.in_run, self.nsinks)
 
     def route(self, rc, tid):
         """-> (destination, delivered route code) or None when the event has no destination."""
@@ -117,6 +121,14 @@ class System:
                 if op[0] == "rule_id" and op[1] in m.ids:
                     continue
                 out.append(op)
+            for op in SAME_OPS:
+                if op[0] == "rule_prefix_same" and op[1] in m.prefixes:
+                    continue
+                if op[0] == "rule_id_same" and op[1] in m.ids:
+                    continue
+                if (op[2] == "F" and not m.fallback) or (op[2] == "last" and not m.nsinks):
+                    continue
+                out.append(op)
         out.extend(STATUS_OPS)
         return out
 
@@ -137,12 +149,24 @@ class System:
                     expected[s].append(("stopTestRun",))
                 m.in_run = False
                 impl.router.stopTestRun()
+            elif name in ("rule_prefix_same", "rule_id_same"):
+                idx = "F" if op[2] == "F" else m.nsinks - 1
+                sink = impl.fb if op[2] == "F" else impl.sinks[idx]
+                m.nrules += 1
+                # routing changes; nothing is delivered now, and start/stop registration is unchanged
+                if name == "rule_prefix_same":
+                    m.prefixes[op[1]] = (idx, False)
+                    impl.router.add_rule(sink, "route_code_prefix", route_prefix=op[1])
+                else:
+                    m.ids[op[1]] = idx
+                    impl.router.add_rule(sink, "test_id", test_id=op[1])
             elif name in ("rule_prefix", "rule_id"):
                 sink = rec.Stream()
                 idx = len(impl.sinks)
                 impl.sinks.append(sink)
                 expected[idx] = []
                 m.nrules += 1
+                m.nsinks += 1
                 if name == "rule_prefix":
                     _, p, consume, dss = op
                     m.prefixes[p] = (idx, consume)
